@@ -19,3 +19,17 @@ func VerifCleanupPassAfter(sc ports.StatsCollector, d time.Duration) {
 	atomic.AddInt64(&c.lastCleanup, -int64(d))
 	c.tryCleanup(time.Now().UnixNano())
 }
+
+// VerifAge simulates "d passes without traffic": every time stamp the collector keeps (last clean-up pass,
+// per-endpoint lastUsed) moves d into the past.
+func VerifAge(sc ports.StatsCollector, d time.Duration) {
+	c, ok := sc.(*Collector)
+	if !ok {
+		return
+	}
+	atomic.AddInt64(&c.lastCleanup, -int64(d))
+	c.endpoints.Range(func(_ string, data *endpointData) bool {
+		atomic.AddInt64(&data.lastUsed, -int64(d))
+		return true
+	})
+}
